@@ -192,6 +192,7 @@ package lowleveljpeg
 //@   ensures[sticky] implies(result != nil, e.hasReturnedError)
 //@   ensures[ok] implies(result == nil, encOK(e) && unchanged(e.hasReturnedError) && old(e.numAddsRemaining) > 0 && e.numAddsRemaining == old(e.numAddsRemaining) - 1)
 //@   ensures[toomany] implies(old(e.numAddsRemaining) == 0, result != nil)
+//@   assert@call Write#1 [eoi] implies(e.numAddsRemaining == 0, len(arg_p) >= 2 && arg_p[len(arg_p)-2] == 0xFF && arg_p[len(arg_p)-1] == 0xD9)
 //@   ensures[invalidblock] implies(exists(k, 0, len(blocks), !blockOK(blocks[k])), result == ErrInvalidBlockI16)
 //@   ensures unchanged(e.colorType)
 //@   modifies e.hasReturnedError, e.numAddsRemaining, e.bitsV, e.bitsN, mem(e.buf), mem(e.prevDC)
